@@ -130,6 +130,25 @@ def run(ctx):
                                         opk.add(x.op)
                 ok_op = vs == val and opk == {kind}
                 detail = "%s %s" % (sorted(opk), sorted(vs))
+                if ok_op and len(val) > 1:
+                    # connective: "none of" = conjunction of !=, "one of" = disjunction of ==.  In the CFG a
+                    # short-circuit && assigns `false` on a comparison's false edge, || assigns `true` on a true edge.
+                    def const_ret(block):
+                        for st in g.bbs[block]["s"]:
+                            if st["k"] == "a" and st["d"] == [0, []] and st["r"]["k"] == "use":
+                                return vf.const_of_operand(g, st["r"]["o"])
+                        return None
+                    wrong = 0
+                    for x in cfg.comparisons(g):
+                        if x.op not in ("Eq", "Ne") or not x.is_call:
+                            continue
+                        if kind == "Ne":
+                            wrong += sum(1 for (_s, d) in x.true_edges if const_ret(d) == "1")   # `a != X || ..`
+                        else:
+                            wrong += sum(1 for (_s, d) in x.false_edges if const_ret(d) == "0")  # `a == X && ..`
+                    if wrong:
+                        ok_op = False
+                        detail += " combined with the wrong connective"
         held = ok_fields and ok_op
         run.instance(R1, {"criterion": q, "entry_fields": sorted(ef), "expected_fields": sorted(exp_fields), "operator": detail, "expected": str(exp_op), "other_query_fields": sorted(others)}, held=held)
         if not held:
